@@ -34,7 +34,11 @@ func getSwapOutReceiverStates() States {
 			Events: Events{
 				Event_OnSwapOutRequestReceived: State_SwapOutReceiver_CreateSwap,
 				Event_OnInvalid_Message:        State_SendCancel,
+				Event_ActionFailed:             State_SwapCanceled,
 			},
+			// A swap found in its initial state after a restart was
+			// stored but never started: nothing has been sent yet.
+			FailOnrecover: true,
 		},
 		State_SwapOutReceiver_CreateSwap: {
 			Action: &CheckRequestWrapperAction{next: &SetBlindingKeyActionWrapper{next: &CreateSwapOutFromRequestAction{}}},
